@@ -895,6 +895,19 @@ impl<'a> Message<'a> {
                 actual: data.len(),
             });
         }
+        if mlength + MessageHeader::LENGTH < data.len() {
+            // bytes beyond the advertised size are not part of this message and must never be
+            // interpreted as attributes
+            warn!(
+                "malformed advertised size {:?} and data size {:?} don't match",
+                mlength + 20,
+                data.len()
+            );
+            return Err(StunParseError::TooLarge {
+                expected: mlength + MessageHeader::LENGTH,
+                actual: data.len(),
+            });
+        }
 
         let mut data_offset = MessageHeader::LENGTH;
         let mut data = &data[MessageHeader::LENGTH..];
